@@ -41,6 +41,9 @@ type c13Plan struct {
 	// BadPackets (close-errqueue): so many packets that cannot be parsed arrive on the idle channel that the
 	// channel's error queue overflows before Close is called.
 	BadPackets int `json:"bad_packets,omitempty"`
+	// StallWindow >= 0 (closed-calls, conn-close, close-queue): before the close the peer stops reading; the
+	// socket still buffers that many bytes, then writes block. -1: the peer keeps reading.
+	StallWindow int `json:"stall_window"`
 	// ConnClose (close-errqueue): close the connection instead of the channel.
 	ConnClose   bool `json:"conn_close,omitempty"`
 	LateMs      int  `json:"late_ms,omitempty"`
@@ -98,6 +101,10 @@ func (c13) Gen(r *Rand, idx int, tier string) interface{} {
 	p.DoubleClose = r.Pct(40)
 	p.ConcurrentClose = p.Kind == "closed-calls" && r.Pct(40)
 	p.DeadPeer = p.Kind == "conn-close" && r.Pct(30)
+	p.StallWindow = -1
+	if (p.Kind == "closed-calls" || p.Kind == "conn-close" || p.Kind == "close-queue") && !p.DeadPeer && r.Pct(12) {
+		p.StallWindow = Pick(r, []int{0, 4, 16, 100})
+	}
 	if p.Kind == "close-errqueue" {
 		p.BadPackets = 1 + r.Intn(14)
 		p.ConnClose = r.Pct(40)
@@ -176,7 +183,7 @@ func c13Pending(p *c13Plan) int {
 }
 
 // c13EndPeer ends the peer's side of the current run's connection (set by Run; runs are sequential per process).
-var c13EndPeer func()
+var c13EndPeer, c13StallPeer func()
 
 type c13Res struct {
 	setupErr   string
@@ -259,6 +266,12 @@ func (c13) Run(plan interface{}, schedSeed uint64, replay []simrt.Choice, lenien
 		pr.SendPackets(peer.Packetise(body, peer.CutsBySize(len(body), 9), peer.BufResponse, m.Channel, eom))
 	}
 
+	c13StallPeer = func() {
+		if p.StallWindow >= 0 {
+			pr.Conn.PeerStalled, pr.Conn.SendWindow = true, p.StallWindow
+			s.Fault("peer-stops-reading")
+		}
+	}
 	c13EndPeer = func() {
 		pr.Conn.End(simrt.TermEOF, false)
 		s.Fault("close-eof")
@@ -327,7 +340,16 @@ func (c13) Run(plan interface{}, schedSeed uint64, replay []simrt.Choice, lenien
 		}
 		blocked = append(blocked, pk)
 	}
-	if len(blocked) > 0 {
+	inWrite := false
+	for _, pk := range blocked {
+		if pk.Op == "write" {
+			inWrite = true
+		}
+	}
+	if inWrite && p.StallWindow >= 0 {
+		// the one way a transport write can block in this world: the peer stopped reading
+		v.Violate("blocked-write", "close blocks in a transport write to a peer that stopped reading", "%s (peer stopped reading, %d bytes of socket buffer): tasks still blocked when nothing more can happen: %v", p.Kind, p.StallWindow, out.Parked)
+	} else if len(blocked) > 0 {
 		v.Violate("blocked", "blocked "+p.Kind+" "+ParkSig(out, Sites), "%s: tasks still blocked when nothing more can happen: %v", p.Kind, out.Parked)
 	}
 	for _, w := range res.viol {
@@ -499,6 +521,7 @@ func c13ClosedCalls(p *c13Plan, res *c13Res, conn *tds.Conn, ch *tds.Channel) {
 		}
 		simrt.Sleep(time.Millisecond)
 	}
+	c13StallPeer()
 	var closer2 *simrt.Task
 	if p.ConcurrentClose {
 		// a second goroutine closes the same channel at the same time: whichever Close call returns first, the
@@ -564,6 +587,7 @@ func c13ConnClose(p *c13Plan, res *c13Res, conn *tds.Conn, ch0, ch *tds.Channel)
 		}
 		simrt.Sleep(time.Millisecond)
 	}
+	c13StallPeer()
 	if p.DeadPeer {
 		// the peer goes away and nobody receives: the reader queues one error per read timeout
 		c13EndPeer()
@@ -624,6 +648,7 @@ func c13CloseQueue(p *c13Plan, res *c13Res, conn *tds.Conn, ch *tds.Channel) {
 	for i := 0; i < p.CloseAfter; i++ {
 		simrt.Yield(0)
 	}
+	c13StallPeer()
 	res.inCall = true
 	res.closeStart = simrt.SimNow()
 	res.closeCall = simrt.Record("close-call", "", "", 0)
